@@ -123,3 +123,12 @@ def enumerations(tier, shard, nshards):
                 yield case
 
     yield ("large files (%s records, BGZF in 20 KB blocks, stable and unstable)" % sizes, gen(), True)
+
+    def huge():
+        # an uncompressed GAF of more than 4 MiB (readers that work in large chunks have their first boundary here)
+        if shard == 0:
+            g, case = idx.big_file_case(97, 30000, False, pad=260)
+            case["bgzf"] = None
+            yield case
+
+    yield ("one plain-text GAF of 30 000 records (> 4 MiB)", huge(), True)
